@@ -231,14 +231,14 @@ def _transfer_completion(code_i, has_reply, data_fails, multi):
     return data.eof_seen and has_reply and code == '226' and reply.code == 226 and b''.join(sink.parts) == b'abc'
 
 
-def _session_completion(code_i, has_reply, data_fails, multi):
+def _session_completion(code_i, has_reply, data_fails, multi, listing=False, empty=False):
     """The same through Session.download: the `end_transfer` event (what the WARC recorder turns into a resource record) is published
     exactly when the transfer completed."""
     import io
     import weakref
     from wpull.protocol.ftp.client import Session, SessionState
     from wpull.protocol.ftp.request import Response as FResponse, Request as FRequest
-    code = pick(['226', '426', '451', '552', '250', '200', '150', '550'], code_i)
+    code = pick(['226', '426', '451', '552', '250', '200', '150', '550', '450', '425'], code_i)
     wire = b''
     if has_reply:
         wire = (code + '-Closing\r\n' + code + ' done\r\n').encode() if multi else (code + ' done\r\n').encode()
@@ -253,23 +253,33 @@ def _session_completion(code_i, has_reply, data_fails, multi):
     with nosym():
         sess = Session(login_table=weakref.WeakKeyDictionary(), connection_pool=None)
         sess._commander = Commander(ControlStream(FakeConnection(wire)))
-        data = _FakeData([b'ab', b'c'], data_fails)
+        content = [] if empty else ([b'-rw-r--r-- 1 u g 3 Jan  1  2015 ', b'f.txt\r\n'] if listing else [b'ab', b'c'])
+        data = _FakeData(content, data_fails)
         sess._data_stream = data
-        sess._request = FRequest('ftp://h.example/f')
-        sess._response = FResponse()
+        sess._request = FRequest('ftp://h.example/f' if not listing else 'ftp://h.example/d/')
+        if listing:
+            from wpull.protocol.ftp.request import ListingResponse
+            sess._response = ListingResponse()
+            sess._listing_type = 'list'
+            sess._session_state = SessionState.directory_request_sent
+        else:
+            sess._response = FResponse()
+            sess._session_state = SessionState.file_request_sent
         sess._response.request = sess._request
-        sess._session_state = SessionState.file_request_sent
         published = []
         sess.event_dispatcher.add_listener(Session.Event.end_transfer, published.append)
         out = io.BytesIO()
     good = has_reply and code == '226' and not data_fails
     try:
-        resp = run(sess.download(out))
+        resp = run(sess.download_listing(out) if listing else sess.download(out))
     except (ServerError, NetworkError, ProtocolError):
         hit('incomplete')
         return not good and published == []           # a failed transfer is never published as finished
     hit('complete')
-    return good and len(published) == 1 and resp.reply.code == 226 and out.getvalue() == b'abc'
+    if listing:
+        # a listing counts as complete (even an empty one) only with the 226 - never on 450 / 550 / a lost connection
+        return good and len(published) == 1 and resp.reply.code == 226 and len(resp.files) == (0 if empty else 1)
+    return good and len(published) == 1 and resp.reply.code == 226 and out.getvalue() == (b'' if empty else b'abc')
 
 
 _NUMS = [0, 1, 10, 255, 256, 999, 1000]
@@ -326,11 +336,11 @@ HARNESSES = [
       funcs=['wpull/protocol/ftp/stream.py:ControlStream.read_reply'],
       doc='a reply line over the 64 KiB reader limit (first or continuation line, 5 tails that look like a final line) delivered in one '
           'piece or with a pause inside the line (the stream reader then discards only the part received): same outcome either way'),
-    H('session_completion', '_session_completion', 'code_i: int, has_reply: bool, data_fails: bool, multi: bool',
-      pre=['0 <= code_i <= 7'], timeout={'quick': 120, 'thorough': 300}, samples=[(0, True, False, False), (1, True, False, True), (0, False, False, False)],
+    H('session_completion', '_session_completion', 'code_i: int, has_reply: bool, data_fails: bool, multi: bool, listing: bool, empty: bool',
+      pre=['0 <= code_i <= 9'], timeout={'quick': 200, 'thorough': 300}, samples=[(0, True, False, False, False, False), (1, True, False, True, False, False), (0, False, False, False, False, False), (8, True, False, False, True, True)],
       need=['complete', 'incomplete'],
       funcs=['wpull/protocol/ftp/client.py:Session.download', 'wpull/protocol/ftp/command.py:Commander.read_stream'],
-      doc='Session.download over the same cases: it returns and publishes end_transfer (the recorder\'s cue to write the resource '
+      doc='Session.download and Session.download_listing (also with no data bytes at all) over the same cases: it returns and publishes end_transfer (the recorder\'s cue to write the resource '
           'record) only for a transfer whose data connection reached EOF and that the server confirmed with 226; every failure raises '
           'and publishes nothing'),
     H('transfer_completion', '_transfer_completion', 'code_i: int, has_reply: bool, data_fails: bool, multi: bool',
